@@ -1,6 +1,7 @@
 package checks
 
 import (
+	"reflect"
 	"encoding/json"
 	"fmt"
 	"strings"
@@ -507,9 +508,28 @@ func C11(run *core.Run) {
 	conc := abs.NewConc()
 	w := newWireRender(conc)
 	distinct := core.NewDistinct()
+	// baseline: every well-formed case parsed before any failing parse has happened in this process
+	type base struct {
+		text string
+		msg  mocrelay.ClientMsg
+	}
+	var baseline []base
+	for _, c := range cases {
+		if c.Verdict != "accept" {
+			continue
+		}
+		text := w.render(c)
+		if acc, msg, p := gate(text); acc && p == nil {
+			baseline = append(baseline, base{text, msg})
+		}
+	}
+	var failing []string
 	for i, c := range cases {
 		text := w.render(c)
 		acc, msg, p := gate(text)
+		if msg == nil && p == nil && len(failing) < 4000 {
+			failing = append(failing, text)
+		}
 		run.Add("messages_gated", 1)
 		desc := c.describe()
 		if c.Verdict != "accept" {
@@ -534,7 +554,32 @@ func C11(run *core.Run) {
 			run.Sample(map[string]any{"case": desc, "text": text, "verdict": c.Verdict, "accepted": acc})
 		}
 	}
-	run.Set("rule", "Wire.tla gives every syntactic position of the 5 client message types a status that is ok / bad / open; TLC enumerates each baseline, each ok variant, each whitespace placement and every single-point corruption (thorough: every pair) with Verdict = reject if some position is bad, accept if all ok, any otherwise; each case is rendered as JSON text and judged by ParseClientMsg + ValidClientMsg. distinct_nontrivial = distinct corrupted/open cases")
+	// the verdict on a text does not depend on what was parsed before it: every failing parse
+	// (sample) followed by every well-formed text (sample) must give the baseline result
+	{
+		r := run.Rand("c11-history")
+		nf, nw := 120, 80
+		if run.Thorough() {
+			nf, nw = 600, 300
+		}
+		for i := 0; i < nf && len(failing) > 0 && run.Violations() < 8; i++ {
+			f := failing[r.Intn(len(failing))]
+			for k := 0; k < nw && len(baseline) > 0; k++ {
+				b := baseline[r.Intn(len(baseline))]
+				for rep := 0; rep < 2; rep++ {
+					gate(f)
+				}
+				acc, msg, p := gate(b.text)
+				run.Add("history_pairs", 1)
+				if p != nil || !acc || !reflect.DeepEqual(msg, b.msg) {
+					run.Violate("parse-depends-on-history", fmt.Sprintf("well-formed %s parsed after the failing %s: accepted=%v panic=%v, result differs from the same text parsed first", b.text, f, acc, p),
+						map[string]any{"failing": f, "text": b.text})
+					break
+				}
+			}
+		}
+	}
+	run.Set("rule", "(the result of parsing a well-formed text is also compared, for sampled pairs, after a failing parse with the result of parsing it first.) Wire.tla gives every syntactic position of the 5 client message types a status that is ok / bad / open; TLC enumerates each baseline, each ok variant, each whitespace placement and every single-point corruption (thorough: every pair) with Verdict = reject if some position is bad, accept if all ok, any otherwise; each case is rendered as JSON text and judged by ParseClientMsg + ValidClientMsg. distinct_nontrivial = distinct corrupted/open cases")
 	run.Set("evaluations", run.Get("messages_gated"))
 	run.Set("distinct_nontrivial", distinct.Len())
 	run.Set("exhaustive", true)
